@@ -557,13 +557,14 @@ func (eng *Engine) verifyFuncCase(ct *Contract, res *FuncResult, caseIdx int) {
 	// vacuity probe: requires must be satisfiable
 	x.obls = append(x.obls, &Obligation{Name: fi.Key + "/vacuity" + suffix, Kind: "vacuity", Func: fi.Key, Hyps: append([]*Term(nil), s.assumes...), Goal: nil, Pos: x.pos(fi.Decl.Pos()), Text: "preconditions satisfiable", fi: fi, Props: ct.Props})
 	if ct.Trusted == "" {
-		out := x.execBlock(s, fi.Decl.Body.List)
-		if out != nil && !out.dead {
-			var vals []*Term
-			for _, r := range f.results {
-				vals = append(vals, out.env[r])
+		for _, out := range x.execBlockM([]*State{s}, fi.Decl.Body.List) {
+			if out != nil && !out.dead {
+				var vals []*Term
+				for _, r := range f.results {
+					vals = append(vals, out.env[r])
+				}
+				f.rets = append(f.rets, &RetState{s: out, vals: vals})
 			}
-			f.rets = append(f.rets, &RetState{s: out, vals: vals})
 		}
 		// ensures at every return
 		for ri, r := range f.rets {
